@@ -126,12 +126,16 @@ HasExtent(R, x) == {d \in DOMAIN R.dirs : R.dirs[d].extent = x}
 CLRecs(R) == {k \in DOMAIN R.recs : R.recs[k].rr.has_cl}
 MovedDirs(R) == {d \in DOMAIN R.dirs : R.dirs[d].ent >= 0 /\ Rec(R, R.dirs[d].ent).rr.re}
 
-\* CL.location is the extent of a directory whose "." has that extent
+\* CL.location is the extent of a directory whose "." has that extent, and it is the intended
+\* one: the relocated directory (its entry carries RE) with the name of the stand-in
 CLLandsOnDir(R) ==
   \A k \in CLRecs(R) : \E r \in {R.recs[k]} :
      /\ r.rr.ncl = 1 /\ ~r.isdir /\ r.special = ""
      /\ \E d \in HasExtent(R, r.rr.cl) :
-          R.dirs[d].dot >= 0 /\ Rec(R, R.dirs[d].dot).extent[1] = r.rr.cl
+          /\ R.dirs[d].dot >= 0 /\ Rec(R, R.dirs[d].dot).extent[1] = r.rr.cl
+          /\ R.dirs[d].ent >= 0
+          /\ Rec(R, R.dirs[d].ent).rr.re
+          /\ Rec(R, R.dirs[d].ent).rr.name = r.rr.name
 
 \* the ".." of a relocated directory carries PL = extent of the logical parent (the directory
 \* that holds the CL record); PL occurs nowhere else
